@@ -474,6 +474,7 @@ static std::string mm_where(const FileSpec &f, long pos) {
     const std::string &d = f.data; if (pos >= (long)d.size()) return "end";
     long ls = pos; while (ls > 0 && d[ls - 1] != '\n') --ls;
     int line = 0; for (long i = 0; i < ls; ++i) if (d[i] == '\n') ++line;
+    if (d[pos] == '\n') return "newline";
     if (line == 0) return "banner";
     // lines before the first non-comment line are comments
     long q = d.find('\n') + 1; int l = 1; bool sizes = false;
